@@ -293,7 +293,32 @@ func c14FixOps() []fixOp {
 	// twelve names (the only table the histories install, so that it never shrinks under existing records): records may
 	// then carry the name indices 9, 10 and 11, the last two encoded with the characters after '9'
 	ext12 := append(append([]string{}, HolidayUtil.NAMES...), "测试节", "第十一节", "第十二节")
-	return []fixOp{
+	// additions placed relative to the table's own first and last records (read from the pristine table): the day
+	// before / two days before the last record (between its target and its day when it is a make-up day), the day after
+	// it, and the day before the first record
+	var edge []fixOp
+	if _, data := HolidayUtil.VerifState(); len(data) >= 36 {
+		seg := func(rec string, delta int) string {
+			y, m, d := atoi(rec[0:4]), atoi(rec[4:6]), atoi(rec[6:8])
+			ny, nm, nd := r1FromJDN(r1JDN(y, m, d) + delta)
+			day := fmt.Sprintf("%04d%02d%02d", ny, nm, nd)
+			if strings.Contains(data, day+rec[8:9]) || strings.Index(data, day) >= 0 && strings.Index(data, day)%18 == 0 {
+				return ""
+			}
+			return day + rec[8:9] + "1" + rec[10:18]
+		}
+		last, first := data[len(data)-18:], data[:18]
+		for _, c := range []struct {
+			name  string
+			rec   string
+			delta int
+		}{{"add-day-before-last-record", last, -1}, {"add-two-days-before-last-record", last, -2}, {"add-day-after-last-record", last, 1}, {"add-day-before-first-record", first, -1}, {"add-day-after-first-record", first, 1}} {
+			if sg := seg(c.rec, c.delta); sg != "" {
+				edge = append(edge, fixOp{c.name, nil, sg})
+			}
+		}
+	}
+	return append(edge, []fixOp{
 		{"add-records-with-11th-and-12th-name", ext12, "20311111:120311111" + "20311201;120311201"},
 		{"replace-record-with-11th-name", ext12, "20311111;020311112"},
 		{"remove-records-with-11th-and-12th-name", ext12, "20311111~000000000" + "20311201~000000000"},
@@ -320,7 +345,7 @@ func c14FixOps() []fixOp {
 		{"make-up-record-on-mid-autumn-day", nil, "200709250020070925"},
 		{"make-up-record-on-national-day-2", nil, "202010020020201001"},
 		{"early-record-removed", nil, "20050101~000000000"},
-	}
+	}...)
 }
 
 // c14Fix: one shard per first operation. Every path [first, j(, k)] is executed in its own fresh process
